@@ -1,9 +1,10 @@
 package main
 
 // C20 — structural conversion (type/conversion).  Type-directed generator over a small
-// universe of Go types built by reflection, the real conversion.ConvertFrom, observation of
-// the deep structure of the target, property oracles on the implementation's own behaviour,
-// and case shards for the model (coq/run/C20Run.v).
+// universe of Go types built by reflection, the real conversion.ConvertFrom (and, in
+// c20entry.go, conversion.DecodeFrom and bus.Proxy.Call2), observation of the deep structure of
+// the target, property oracles on the implementation's own behaviour, and case shards for the
+// model (coq/run/C20Run.v).
 
 import (
 	"fmt"
@@ -975,11 +976,22 @@ type c20env struct {
 	// built: how the source value of the next evaluate was laid out in memory when its parts
 	// share storage (c20alias.go); part of the failure report, "" for separately allocated parts
 	built string
+	// entry: the entry point the next evaluate goes through (c20entry.go); nil = conversion.ConvertFrom
+	// on the value itself.  history: the calls made earlier in the same sequence, for the report
+	entry   *c20entry
+	history string
+	// encodeInto: conversion.EncodeInto is usable on this tree (c20EncodeIntoUsable)
+	encodeInto bool
 }
 
 func (e *c20env) emit(t1, t2 *gt, canon string, comp, other bool, resTerm, oldTerm, desc string) {
-	e.cf.Add("cases", fmt.Sprintf("{| c_from := %s; c_to := %s; c_val := %s; c_compat := %s; c_other := %s; c_res := %s; c_old := %s |}",
-		t1.coq(), t2.coq(), canon, hx.Bool(comp), hx.Bool(other), resTerm, oldTerm), desc)
+	e.emitVia("EConvertFrom", t1, t2, canon, comp, other, resTerm, oldTerm, desc)
+}
+
+// emitVia: entry is a Conv.entry term (which entry point the implementation was called through)
+func (e *c20env) emitVia(entry string, t1, t2 *gt, canon string, comp, other bool, resTerm, oldTerm, desc string) {
+	e.cf.Add("cases", fmt.Sprintf("{| c_from := %s; c_to := %s; c_val := %s; c_compat := %s; c_other := %s; c_res := %s; c_old := %s; c_entry := %s |}",
+		t1.coq(), t2.coq(), canon, hx.Bool(comp), hx.Bool(other), resTerm, oldTerm, entry), desc)
 }
 
 // evaluate runs conversion.ConvertFrom(dst, src) for src : t1 and dst : *t2 (fresh when dirty is
@@ -995,14 +1007,44 @@ func (e *c20env) evaluate(t1, t2 *gt, src, dst reflect.Value, dirty bool, kind s
 		oldDesc = fmt.Sprintf(" into a destination that holds %s (DSlice length [whole backing array])", old)
 	}
 	byPtr := rng.Bool()
-	o := convertInto(dst, src, byPtr)
+	before := coqVal(t1, src)
+	entry, entryTerm := e.entry, "EConvertFrom"
+	var o c20obs
+	if entry != nil {
+		o = entry.run(dst, src)
+		entryTerm = entry.coq
+	} else {
+		o = convertInto(dst, src, byPtr)
+	}
+	// the way back goes through the same kind of entry point
+	wayBack := func(dst, src reflect.Value) c20obs {
+		if entry != nil {
+			return c20DecodeInto(dst, src)
+		}
+		return convertInto(dst, src, byPtr)
+	}
+	backTerm := "EConvertFrom"
+	if entry != nil {
+		backTerm = "EDecodeFrom"
+	}
 	canon := coqVal(t1, src)
 	desc := fmt.Sprintf("%s: %s -> %s, value %s%s", kind, t1, t2, canon, oldDesc)
+	if entry != nil {
+		desc = fmt.Sprintf("%s: %s: %s -> %s, value %s%s", kind, entry.name, t1, t2, canon, oldDesc)
+	}
 	if e.built != "" {
 		desc += " [the source shares storage: " + e.built + "]"
 	}
+	if e.history != "" {
+		desc += " [earlier in this process: " + e.history + "]"
+	}
+	if before != canon {
+		res.Fail("source-modified", fmt.Sprintf("%s: the source value was %s before the call", desc, before))
+	}
 	comp := compatGo(t1, t2)
 	other := otherKindReached(t2, t1, src, false)
+	// a reply read directly (c20entry.direct) is not converted: the second clause has no object
+	judgeOther := entry == nil || !entry.direct
 	known := e.defect && hasNonEmptyMap(t1, src)
 	fail := func(oracle, detail string) {
 		if known {
@@ -1014,7 +1056,7 @@ func (e *c20env) evaluate(t1, t2 *gt, src, dst reflect.Value, dirty bool, kind s
 	resTerm := "None"
 	switch {
 	case o.panicked != "":
-		res.Fail("panic", fmt.Sprintf("ConvertFrom panicked (%s) on %s", o.panicked, desc))
+		res.Fail("panic", fmt.Sprintf("the conversion panicked (%s) on %s", o.panicked, desc))
 		return false
 	case o.err == nil:
 		resTerm = "Some (" + coqVal(t2, o.dst) + ")"
@@ -1022,7 +1064,7 @@ func (e *c20env) evaluate(t1, t2 *gt, src, dst reflect.Value, dirty bool, kind s
 	// ---- property oracles, on the implementation's own behaviour ----
 	if comp {
 		if o.err != nil {
-			fail("compatible-refused", fmt.Sprintf("%s: ConvertFrom returned an error for structurally compatible types: %v", desc, o.err))
+			fail("compatible-refused", fmt.Sprintf("%s: the conversion returned an error for structurally compatible types: %v", desc, o.err))
 		} else {
 			preserved := false
 			if d := agreeGo(t1, t2, src, o.dst, "value"); d != "" {
@@ -1045,7 +1087,7 @@ func (e *c20env) evaluate(t1, t2 *gt, src, dst reflect.Value, dirty bool, kind s
 				}
 			}
 			if preserved || !dirty {
-				back := convertReal(t1, o.dst, byPtr)
+				back := wayBack(reflect.New(t1.rtype()), o.dst)
 				if back.panicked != "" || back.err != nil || coqVal(t1, back.dst) != canon {
 					fail("convert-back", fmt.Sprintf("%s: converting the result %s back gives %s (err %v %s)", desc, coqVal(t2, o.dst), coqVal(t1, back.dst), back.err, back.panicked))
 				}
@@ -1056,12 +1098,12 @@ func (e *c20env) evaluate(t1, t2 *gt, src, dst reflect.Value, dirty bool, kind s
 				genValOpt(rng, t1, bd.Elem(), false, 2, vopt{stale: true})
 				bold := coqDirty(t1, bd.Elem())
 				val2 := coqVal(t2, o.dst)
-				back := convertInto(bd, o.dst, byPtr)
+				back := wayBack(bd, o.dst)
 				bdesc := fmt.Sprintf("%s: converting the result %s back into a %s that holds %s", desc, val2, t1, bold)
 				bres := "None"
 				switch {
 				case back.panicked != "":
-					res.Fail("panic", fmt.Sprintf("ConvertFrom panicked (%s) on %s", back.panicked, bdesc))
+					res.Fail("panic", fmt.Sprintf("the conversion panicked (%s) on %s", back.panicked, bdesc))
 				case back.err != nil:
 					fail("convert-back", fmt.Sprintf("%s returns an error: %v", bdesc, back.err))
 				default:
@@ -1077,10 +1119,12 @@ func (e *c20env) evaluate(t1, t2 *gt, src, dst reflect.Value, dirty bool, kind s
 				}
 				if back.panicked == "" {
 					res.Dist("dirty:way-back")
-					e.emit(t2, t1, val2, compatGo(t2, t1), otherKindReached(t1, t2, o.dst, false), bres, "Some ("+bold+")", "way back of "+desc)
+					e.emitVia(backTerm, t2, t1, val2, compatGo(t2, t1), otherKindReached(t1, t2, o.dst, false), bres, "Some ("+bold+")", "way back of "+desc)
 				}
 			}
 		}
+	} else if !judgeOther {
+		res.Dist("not-judged(read directly, names ambiguous)")
 	} else if t1.class() != t2.class() && o.err == nil {
 		res.Fail("other-kind-accepted", fmt.Sprintf("%s: kinds of different classes were converted, result %s", desc, coqVal(t2, o.dst)))
 	} else if other && o.err == nil && otherKindReached(t2, t1, src, true) {
@@ -1093,7 +1137,7 @@ func (e *c20env) evaluate(t1, t2 *gt, src, dst reflect.Value, dirty bool, kind s
 		res.Dist("other-kind-reached")
 	}
 	nontrivial := t1.hasMap() || (t1.depth() >= 2)
-	res.Count(t1.coq()+"|"+t2.coq()+"|"+canon+"|"+oldTerm+e.built, nontrivial)
+	res.Count(t1.coq()+"|"+t2.coq()+"|"+canon+"|"+oldTerm+e.built+"|"+entryTerm+e.history, nontrivial)
 	res.Dist("pair:" + kind)
 	res.Dist(fmt.Sprintf("depth:%d", t1.depth()))
 	if t1.hasMap() {
@@ -1113,7 +1157,7 @@ func (e *c20env) evaluate(t1, t2 *gt, src, dst reflect.Value, dirty bool, kind s
 		res.Dist("not-judged(same class, outside the compatible fragment)")
 	}
 	res.Sample(desc + " => " + resTerm)
-	e.emit(t1, t2, canon, comp, other, resTerm, oldTerm, desc)
+	e.emitVia(entryTerm, t1, t2, canon, comp, other, resTerm, oldTerm, desc)
 	return o.err == nil
 }
 
@@ -1233,13 +1277,16 @@ func runC20(res *hx.Result, rng *hx.Rng, tier string, outdir string) {
 		"plus struct types declared in Go source that are different and print the same reflect String(), converted one after the other in this process; " +
 		"plus sources whose parts share storage (types holding one slice or map type at several places: rows, fields, map elements; a slice laid out as the same piece, " +
 		"a prefix, a longer piece or a window of the array of an earlier one, a map as the very map met earlier), into fresh and re-used destinations; " +
+		"plus sequences of calls in one process through every entry point (conversion.ConvertFrom, conversion.DecodeFrom on the bytes of the value, bus.Proxy.Call2 / CallID+DecodeFrom " +
+		"against a proxy whose meta object advertises the return signature of the remote type): 1-3 remote types and 1-3 caller types each (same signature, compatible, perturbed, another class), " +
+		"later replies biased to fewer keys and shorter lists, destinations fresh or the reply variable of the call before, calls going on after a refused one; " +
 		"non-trivial = the source type contains a map or a container nested in a container; distinct by sha256 of (types, canonical value, previous content)"
 	// hx.NewRng(seed) and hx.NewRng(seed+1) produce the same stream shifted by one draw (the seed is
 	// multiplied by the generator's own increment); re-seeding from the first output decorrelates them
 	rng = hx.NewRng(rng.U64())
-	n, nReused, nShared, nSharedReused := 1000, 350, 500, 120
+	n, nReused, nShared, nSharedReused, nSeq := 1000, 350, 500, 120, 300
 	if tier == "thorough" {
-		n, nReused, nShared, nSharedReused = 40000, 8000, 20000, 4000
+		n, nReused, nShared, nSharedReused, nSeq = 40000, 8000, 20000, 4000, 8000
 	}
 	defect := probeC20(res)
 	keeps := probeC20Keeps(res)
@@ -1263,6 +1310,7 @@ func runC20(res *hx.Result, rng *hx.Rng, tier string, outdir string) {
 	}
 	e.sameNameTypes()
 	e.sharedStorage(nShared, nSharedReused)
+	e.entrySequences(nSeq)
 	if tier == "thorough" {
 		exhaustiveC20(one)
 		res.Exhaustive = true
